@@ -143,8 +143,8 @@ def protectedNames : List Str :=
    "_load_config_file", "_load_env", "_set_app_config", "_update_dict", "_validate_options",
    "load_all"].map String.toList
 
-def kNoGpg : Str := "no_gpg".toList
-def kGpg : Str := "gpg".toList
+def kNoGpg : Str := ['n', 'o', '_', 'g', 'p', 'g']
+def kGpg : Str := ['g', 'p', 'g']
 
 /-- what one `_update_dict(d)` call writes: class attributes filtered, the `no_gpg` rule, unknown
 options dropped -/
@@ -168,7 +168,7 @@ def boolify (v : Str) : PyVal :=
 def kRetries : Str := "retries".toList
 def kCmdTimeout : Str := "cmd_timeout".toList
 def kHttpTimeout : Str := "http_timeout".toList
-def kConf : Str := "conf".toList
+def kConf : Str := ['c', 'o', 'n', 'f']
 
 /-- `int(v)` / `float(v)` on a boolified environment value -/
 def envNum (k : Str) (v : PyVal) : Option PyVal :=
@@ -234,6 +234,7 @@ inductive FileRes where
   /-- configparser.NoSectionError escapes: a typed option in the legacy section is re-read from
   the section `insights-client`, which does not exist (config.py:649-654) -/
   | noSection
+deriving DecidableEq
 
 /-- `_load_config_file` up to the final `_update_dict`; a ValueError drops the whole file -/
 def fileDict : FileSrc → FileRes
